@@ -21,6 +21,8 @@ CONSTANTS
   RetryRechecks = TRUE
   RetryFanoutAware = TRUE
   ClosedOrdered = TRUE
+  DupClears = TRUE
+  MaxDup = 0
 INVARIANT TypeOK
 INVARIANT P_C05_WireTruth
 INVARIANT P_C05_ListPeers
